@@ -26,7 +26,8 @@ def cases(tier, seed, args):
         hi = 6 if dist in ('cacg', 'watson', 'bingham') else 8
         out.append(dict(t='density', dist=dist, D=int(rng.integers(lo, hi + 1)), L=[int(rng.integers(1, 3)) for _ in range(int(rng.integers(0, 3)))],
                         P=int(rng.integers(2, 5)), seed=int(rng.integers(1 << 30)),
-                        cond=float(10.0 ** rng.choice([0, 1, 2, 4, 6, 8])), kappa_exp=float(rng.uniform(-6, np.log10(500)))))
+                        cond=float(10.0 ** rng.choice([0, 1, 2, 4, 6, 8])), kappa_exp=float(rng.uniform(-6, np.log10(500))),
+                        mean_scale=[1.0, 1.0, 1e4, 1e6][(i // 8) % 4]))
     return out
 
 
@@ -48,8 +49,10 @@ def run_case(case):
     real = dist.startswith('gauss') or dist == 'vmf'
     y = rng.normal(size=(*L, P, D)) + (0 if real else 1j * rng.normal(size=(*L, P, D)))
     if dist in ('gauss_full', 'gauss_diagonal', 'gauss_spherical'):
-        mean = rng.normal(size=(*L, D))
+        mean = rng.normal(size=(*L, D)) * case.get('mean_scale', 1.0)
         cov, _, _ = _pd(rng, L, D, min(case['cond'], 1e6), False)
+        if case.get('mean_scale', 1.0) > 1:
+            cov = cov * 1e-2
         cov = cov.real
         if dist == 'gauss_full':
             obj, e0 = call(Gaussian, mean=mean, covariance=cov)
@@ -106,15 +109,15 @@ def run_case(case):
             Lc = np.linalg.cholesky(S)
             d = y[idx] - (obj.mean[li] if dist == 'gauss_full' else 0)
             v = np.linalg.solve(Lc, d)
-            rec.update(cov=Z(S), L=Z(Lc), v=Z(v), y=Z(y[idx]))
+            rec.update(cov=Z(S), L=Z(Lc), v=Z(v), y=Z(y[idx]), d=Z(d))
             if dist == 'gauss_full':
                 rec['mean'] = Z(obj.mean[li])
             rec['kern'] = [dict(fn='ln', idx=a + 1, arg_f=float(Lc[a, a].real)) for a in range(D)]
         elif dist == 'gauss_diagonal':
-            rec.update(var=enc.aflt(obj.covariance[li]), mean=Z(obj.mean[li]), y=Z(y[idx]))
+            rec.update(var=enc.aflt(obj.covariance[li]), mean=Z(obj.mean[li]), y=Z(y[idx]), d=Z(y[idx] - obj.mean[li]))
             rec['kern'] = [dict(fn='ln', idx=a + 1, arg_f=float(obj.covariance[li][a])) for a in range(D)]
         elif dist == 'gauss_spherical':
-            rec.update(var=[enc.flt(obj.covariance[li])], mean=Z(obj.mean[li]), y=Z(y[idx]))
+            rec.update(var=[enc.flt(obj.covariance[li])], mean=Z(obj.mean[li]), y=Z(y[idx]), d=Z(y[idx] - obj.mean[li]))
             rec['kern'] = [dict(fn='ln', idx=1, arg_f=float(obj.covariance[li]))]
         elif dist == 'cacg':
             U, lam = obj.covariance_eigenvectors[li], obj.covariance_eigenvalues[li]
